@@ -1,10 +1,82 @@
-import AcraModel.Basic.Bytes
-/-! Driver ops for C06. -/
+import AcraModel.Keystore.V1Cache
+import AcraModel.Keystore.V2Store
+/-! Driver ops for C06: whole op sequences on the v1 / v2 keystore models.
+
+`C06.v1 <cache> <op>…`, `C06.v2m <op>…`, `C06.v2d <op>…` → observations joined by `|`
+(token and observation syntax: see harness/internal/c06/seq.go). -/
 namespace Driver.C06
-open AcraModel
+open AcraModel AcraModel.Keystore
+
+def kindTok : Kind → String
+  | .sp => "sp" | .ss => "ss" | .hm => "hm" | .pp => "pp" | .ps => "ps" | .al => "al"
+
+def slotTok (s : Slot) : String :=
+  if s.kind.hasClient then kindTok s.kind ++ toString s.client else kindTok s.kind
+
+def fileTok (f : Slot × Bool) : String := slotTok f.1 ++ (if f.2 then ".pub" else "")
+
+def parseSlot (t : String) : Option Slot :=
+  let k := t.take 2
+  let rest := (t.drop 2).toString
+  let kind : Option Kind := match k.toString with
+    | "sp" => some .sp | "ss" => some .ss | "hm" => some .hm
+    | "pp" => some .pp | "ps" => some .ps | "al" => some .al | _ => none
+  kind.bind fun kd =>
+    if kd.hasClient then
+      match rest.toNat? with
+      | some c => if rest.length = 1 ∧ c < nClients then some ⟨kd, c⟩ else none
+      | none => none
+    else if rest = "" then some ⟨kd, 0⟩ else none
+
+def parseOp (t : String) : Option Op :=
+  match t.splitOn ":" with
+  | ["l"] => some .list
+  | ["r"] => some .listRot
+  | ["x"] => some .reset
+  | ["o"] => some .reopen
+  | ["g", s] => (parseSlot s).map .gen
+  | ["c", s] => (parseSlot s).map .cur
+  | ["p", s] => (parseSlot s).map .pub
+  | ["a", s] => (parseSlot s).map .all
+  | ["dc", s] => (parseSlot s).map .dcur
+  | ["dr", s, i] => do let s ← parseSlot s; let i ← i.toNat?; pure (.drot s i)
+  | _ => none
+
+def insertSorted (x : String) : List String → List String
+  | [] => [x]
+  | y :: ys => if x < y then x :: y :: ys else y :: insertSorted x ys
+
+def sortStrings (l : List String) : List String := l.foldr insertSorted []
+
+def idTok (g : Nat) : String := if g = 0 then "?" else toString g
+
+def joinOr (sep : String) (l : List String) : String := if l.isEmpty then "-" else sep.intercalate l
+
+def renderObs (first : Nat) : Obs → String
+  | .ok => "ok" | .err => "err" | .panic => "panic"
+  | .key g => "ok:" ++ idTok g
+  | .pair g p => "ok:" ++ idTok g ++ "/" ++ idTok p
+  | .keys gs => "ok:" ++ joinOr "." (gs.map idTok)
+  | .files fs => "ok:" ++ joinOr "," (sortStrings (fs.map fileTok))
+  | .rotated rs =>
+      let count (t : String) : Nat := ((rs.filter fun r => fileTok r.1 = t).map (·.2)).foldl (· + ·) 0
+      "ok:" ++ joinOr "," ((sortStrings (rs.map fun r => fileTok r.1)).map fun t =>
+        t ++ "=" ++ ".".intercalate ((List.range (count t)).map fun j => toString (first + j)))
+
+def parseInt (s : String) : Option Int :=
+  if s.startsWith "-" then (s.drop 1).toString.toNat?.map fun n => - (n : Int) else s.toNat?.map fun n => (n : Int)
 
 def handle (op : String) (args : List String) : Option String :=
   match op, args with
+  | "v1", c :: toks => do
+      let c ← parseInt c
+      let ops ← toks.mapM parseOp
+      let (_, obs) := (V1.init c).run ops
+      pure ("|".intercalate (obs.map (renderObs Generated.KeyNames.v1FirstListedIndex)))
+  | "v2m", toks | "v2d", toks => do
+      let ops ← toks.mapM parseOp
+      let (_, obs) := V2.init.run ops
+      pure ("|".intercalate (obs.map (renderObs Generated.KeyNames.v2FirstListedIndex)))
   | _, _ => none
 
 end Driver.C06
